@@ -568,7 +568,7 @@ func TestC01(t *testing.T) {
 				}
 			}
 		}
-		rt.Repeat(map[string]func(*rapid.T){
+		actions := map[string]func(*rapid.T){
 			"post": post,
 			"honest": func(rt *rapid.T) {
 				if len(w.files) == 0 {
@@ -887,7 +887,9 @@ func TestC01(t *testing.T) {
 					fail(sig, msg)
 				}
 			},
-		})
+		}
+		actions["attestRound2"], actions["attestRound3"] = actions["attestRound"], actions["attestRound"] // weighted up
+		rt.Repeat(actions)
 		for k, v := range w.classes {
 			rec.Add("submissions:"+k, int64(v))
 		}
